@@ -11,6 +11,15 @@ pub const EPS: f64 = 1.1920928955078125e-7;
 pub const C_ABS: f64 = 64.0;
 /// Tolerance factor for ratios: |a-b| <= C_RATIO * EPS * S / denominator.
 pub const C_RATIO: f64 = 256.0;
+/// Tolerance of a ratio r = num/den whose numerator and denominator each carry an absolute error of
+/// `C_ABS*EPS*S + slack`: |dr| <= (1+|r|) * err / den. For |r| <= 3 this is within the design's
+/// `C_RATIO*EPS*S/den`; the (1+|r|)/4 factor extends it soundly to the rare ratios far outside [0,1]
+/// (e.g. RER = -12 when exports nearly cancel the total).
+pub fn ratio_tol(s: f64, den: f64, r: f64, slack: f64) -> f64 {
+    let k = ((1.0 + r.abs()) / 4.0).max(1.0);
+    k * (C_RATIO * EPS * s + 4.0 * slack) / den
+}
+
 /// Ratios are compared only when the denominator exceeds this fraction of S.
 pub const RATIO_MIN_DEN: f64 = 1e-3;
 
@@ -65,6 +74,34 @@ pub fn compare(a: &Flat, b: &Flat, sc: &Scale, slack_abs: f64, slack_step: f64) 
     let mut rep = CmpReport::default();
     let f = a.max_factor.max(b.max_factor).max(1.0);
     let area = if sc.area > 0.0 { sc.area } else { 1.0 };
+    // C18 only: the by-service weighted energies are (weighted energy of the carrier) x (service share of its
+    // EPB use); a printed-precision change of a use moves the share by slack/epus, i.e. the product by
+    // slack * |W_carrier| / epus_carrier, which can exceed slack*F when exports dominate.
+    let mut amp = 0.0f64;
+    if slack_abs > 0.0 {
+        let carriers: std::collections::BTreeSet<String> = a
+            .items
+            .keys()
+            .filter_map(|k| k.strip_prefix("cr.").and_then(|r| r.split('.').next()).map(|c| c.to_string()))
+            .collect();
+        for c in carriers {
+            let epus = a.items.get(&format!("cr.{}.used.epus_an", c)).map(|v| v.0.abs()).unwrap_or(0.0);
+            if epus <= 0.0 {
+                continue;
+            }
+            let mut w = 0.0f64;
+            for step in ["a", "b"] {
+                for comp in ["ren", "nren", "co2"] {
+                    for side in [a, b] {
+                        if let Some(v) = side.items.get(&format!("cr.{}.we.{}.{}", c, step, comp)) {
+                            w = w.max(v.0.abs());
+                        }
+                    }
+                }
+            }
+            amp += w / epus;
+        }
+    }
     let keys: std::collections::BTreeSet<&String> = a.items.keys().chain(b.items.keys()).collect();
     for k in keys {
         let (va, ca) = a.items.get(k).copied().unwrap_or((0.0, Cls::Unit));
@@ -83,7 +120,9 @@ pub fn compare(a: &Flat, b: &Flat, sc: &Scale, slack_abs: f64, slack_step: f64) 
             Cls::W => (sc.e_an * f, slack_abs * f),
             Cls::Em2 => (sc.e_an / area, slack_abs / area),
             Cls::Wm2 => (sc.e_an * f / area, slack_abs * f / area),
-            Cls::Unit => (1.0, 0.0),
+            // the load-matching factor is a ratio of two declared quantities: once those lose printed
+            // precision (C18) its change is not bounded by the slack, so it is not compared then
+            Cls::Unit => (1.0, if slack_abs > 0.0 && k.contains("f_match") { f64::INFINITY } else { 0.0 }),
             Cls::N => (sc.n_an, slack_abs),
             Cls::Nm2 => (sc.n_an / area, slack_abs / area),
         };
@@ -95,7 +134,16 @@ pub fn compare(a: &Flat, b: &Flat, sc: &Scale, slack_abs: f64, slack_step: f64) 
             continue;
         }
         let d = (va - vb).abs();
-        let tol = C_ABS * EPS * s + slack;
+        let by_srv_extra = if amp > 0.0 && k.contains("_by_srv") {
+            match cls {
+                Cls::W => slack_abs * amp,
+                Cls::Wm2 => slack_abs * amp / area,
+                _ => 0.0,
+            }
+        } else {
+            0.0
+        };
+        let tol = C_ABS * EPS * s + slack + by_srv_extra;
         if s > 0.0 && cls != Cls::Unit {
             let noise = d / (EPS * s);
             if noise > rep.max_noise && d <= tol {
@@ -118,7 +166,7 @@ pub fn compare(a: &Flat, b: &Flat, sc: &Scale, slack_abs: f64, slack_step: f64) 
             continue;
         }
         rep.compared += 1;
-        let tol = C_RATIO * EPS * s / den + slack_abs * f * 4.0 / den;
+        let tol = ratio_tol(s, den, ra.abs().max(rb.abs()), slack_abs * f);
         if (ra - rb).abs() > tol {
             rep.mismatches.push(format!("{}: {} vs {} (tol {:e})", name, ra, rb, tol));
         }
@@ -139,7 +187,8 @@ pub fn compare(a: &Flat, b: &Flat, sc: &Scale, slack_abs: f64, slack_step: f64) 
                 (Ok(x), Ok(y)) if x.is_finite() && y.is_finite() => {
                     let dem = a.dhw_demand.unwrap_or(0.0).abs().min(b.dhw_demand.unwrap_or(0.0).abs());
                     if dem > RATIO_MIN_DEN * sc.e_an.max(1e-30) * 1e-3 && dem > 0.0 {
-                        let tol = 0.0011 + C_RATIO * EPS * sc.e_an / dem + slack_abs * 4.0 / dem;
+                        // d(Q/dem) = dQ/dem + (Q/dem) * d(dem)/dem
+                        let tol = 0.0011 + C_RATIO * EPS * sc.e_an / dem + slack_abs * 4.0 / dem + 2.0 * x.abs().max(y.abs()) * slack_abs / dem;
                         rep.compared += 1;
                         if (x - y).abs() > tol {
                             rep.mismatches.push(format!("DHW fraction: {} vs {} (tol {:e})", x, y, tol));
